@@ -191,7 +191,7 @@ def run_e3(ctx):
         return fails
     import time as _time
     t0 = _time.time()
-    n = ctx.scale(8, 250)
+    n = ctx.scale(8, 80)
     for k in range(n):
         seed = ctx.rng.randrange(1 << 30)
         try:
